@@ -1,7 +1,7 @@
 """C10 - warm-start points are always evaluated during initialisation."""
 import numpy as np
 
-from .. import common as C, gen, scen, initcap
+from .. import common as C, gen, scen, initcap, translators
 from ..runner import Check
 from . import drvcommon as D
 from .C02 import init_level
@@ -107,7 +107,7 @@ def chain_case(r, name):
 
 
 def run():
-    chk = Check("C10", props_modules=["GFO.Props.C10", "GFO.Props.InitRuns", "GFO.Props.InitRuns2", "GFO.Props.PopInitRuns"])
+    chk = Check("C10", props_modules=["GFO.Props.C10", "GFO.Props.InitRuns", "GFO.Props.InitRuns2", "GFO.Props.PopInitRuns", "GFO.Gen.InitGenCheck"], gen_steps=(translators.gen_init,))
     chk.build_and_audit()
     r = C.rng("C10")
     quick = C.tier() != "thorough"
